@@ -69,6 +69,10 @@ func evmOne(c *fw.Ctx, n *big.Int, withData bool, gas uint64) (judged bool) {
 		if err != nil {
 			panic(err)
 		}
+		if gas > 3000000 { // half of the cases: the RPC entry point's calls on the same object before it converts
+			dec.Hash()
+			dec.Cost()
+		}
 		w := eth_tx.ConvertTx(dec, snd, enc)
 		top := core.GetBlockChain().TopBlock()
 		hdr := &types.BlockHeader{Height: 20, PreHash: top.Hash, CurTime: top.CurTime.Add(20 * time.Second),
